@@ -187,6 +187,7 @@ static void gw_mismatch(const int *prog, int n, int step, const char *sig, const
 
 static uint64_t gw_skip;          /* programs with ordinal < gw_skip are enumerated but not executed (resume after a child died) */
 static uint64_t gw_ordinal;
+static int gw_sampled; static uint64_t gw_abandoned;     /* GW_PROGS: behaviours sampled by TLC's simulation mode */
 static int gw_forked;             /* child of the fork/resume supervisor: a mismatch ends the child, the supervisor resumes after it */
 /* ---- current program (for sanitizer death callback) ---- */
 static VP_TLS const int *gw_cur_prog;
@@ -422,6 +423,9 @@ static int gw_check_step(const int *prog, int n, int i, int eid) {
     if (ok_obs && ok_proj) return 0;
     int fixed = gw_choice_fixed(e);
     if (fixed >= 0 && gw_sibling_matches(eid, fixed, obs, proj)) return 3;
+    /* sampled behaviours (GW_PROGS) carry no sibling edges: a step whose arguments include a library choice and whose outcome differs
+       is "the library chose otherwise" - the behaviour is abandoned there (the enumerated configurations judge these steps) */
+    if (fixed >= 0 && gw_sampled) { gw_abandoned++; return 3; }
     char sig[160];
     gw_sig(prog, i, e, ok_obs, sig, sizeof sig);
     char lab[256];
@@ -488,6 +492,7 @@ static int gw_replay_file(const char *path) {
 /* GW_PROGS=<file>: programs given explicitly (behaviours sampled by TLC's simulation mode): one action label per line as in
    replay files, programs separated by a line "--"; each is completed to a terminal state when the known graph has a way */
 static int gw_progs(const char *path) {
+    gw_sampled = 1;
     FILE *f = fopen(path, "r");
     if (!f) { fprintf(stderr, "cannot open %s\n", path); return 2; }
     int cap = 4096 + gw_nstates, *prog = malloc(sizeof(int) * cap), n = 0, cur = gw_inits[0], bad = 0;
